@@ -391,38 +391,38 @@ func runC03(p *engine.Prog, r *engine.Report) {
 			se := fi.ElemPath(fi.FieldPath(st, del, c.fScraping), c.fScraping.Type(), kt, lk)
 			j2a := engine.And(engine.EqAtom(fi.FieldPath(se, lk, c.fState), `"in_transfer"`), engine.EqAtom(fi.FieldPath(oe, lk, c.fState), `""`))
 			for _, site := range c.decisionSites(del) {
-			if ok, _ := site.implies(fi, j2a); !ok {
-				continue
-			}
-			nH++
-			allowed := func(lit string) bool {
-				lit = strings.TrimPrefix(lit, "¬")
-				switch {
-				case engine.IsStructuralLiteral("x" + lit) || engine.IsStructuralLiteral(lit):
-					return true
-				case strings.HasPrefix(lit, "has(") && strings.Contains(lit, "["+kt+"]"):
-					return true
-				case strings.Contains(lit, se+"."+c.fTimes.Name()) || strings.Contains(lit, oe+"."+c.fTimes.Name()):
-					return true
-				case strings.Contains(lit, se+"."+c.fState.Name()) || strings.Contains(lit, oe+"."+c.fState.Name()):
-					return true
-				case lit == "eq("+min2(st, fi.T(o).S)+","+max2(st, fi.T(o).S)+")":
-					return true
-				case strings.HasPrefix(lit, "eq(") && strings.Contains(lit, oe) && strings.Contains(lit, "nil"):
-					return true
-				case strings.HasPrefix(lit, "true(") && strings.HasSuffix(lit, "."+c.fChangeAble.Name()+")"):
-					return true
+				if ok, _ := site.implies(fi, j2a); !ok {
+					continue
 				}
-				return false
-			}
-			var extra []string
-			for _, g := range fi.Guards(site.blk) {
-				if !allowed(g) {
-					extra = append(extra, g)
+				nH++
+				allowed := func(lit string) bool {
+					lit = strings.TrimPrefix(lit, "¬")
+					switch {
+					case engine.IsStructuralLiteral("x"+lit) || engine.IsStructuralLiteral(lit):
+						return true
+					case strings.HasPrefix(lit, "has(") && strings.Contains(lit, "["+kt+"]"):
+						return true
+					case strings.Contains(lit, se+"."+c.fTimes.Name()) || strings.Contains(lit, oe+"."+c.fTimes.Name()):
+						return true
+					case strings.Contains(lit, se+"."+c.fState.Name()) || strings.Contains(lit, oe+"."+c.fState.Name()):
+						return true
+					case lit == "eq("+min2(st, fi.T(o).S)+","+max2(st, fi.T(o).S)+")":
+						return true
+					case strings.HasPrefix(lit, "eq(") && strings.Contains(lit, oe) && strings.Contains(lit, "nil"):
+						return true
+					case strings.HasPrefix(lit, "true(") && strings.HasSuffix(lit, "."+c.fChangeAble.Name()+")"):
+						return true
+					}
+					return false
 				}
-			}
-			r.Check(len(extra) == 0, "R3.3-handover-exact", fmt.Sprintf("hand-over delete#%d in %s", nH, engine.FuncName(fn)), "removal of the in-transfer copy at "+c.at(del),
-				"no condition beyond: discovered, both scrape counts reached, distinct non-nil in-sync holder, own in-transfer, other normal", "additional necessary conditions: "+strings.Join(extra, " ∧ "))
+				var extra []string
+				for _, g := range fi.Guards(site.blk) {
+					if !allowed(g) {
+						extra = append(extra, g)
+					}
+				}
+				r.Check(len(extra) == 0, "R3.3-handover-exact", fmt.Sprintf("hand-over delete#%d in %s", nH, engine.FuncName(fn)), "removal of the in-transfer copy at "+c.at(del),
+					"no condition beyond: discovered, both scrape counts reached, distinct non-nil in-sync holder, own in-transfer, other normal", "additional necessary conditions: "+strings.Join(extra, " ∧ "))
 			}
 		}
 	}
